@@ -43,6 +43,39 @@ def step {α} (s : Store α) : Op α → Store α
 def lookup {α} (s : Store α) (q : Query) : Option (Entry α) :=
   if msgKey q = [] then none else (s.find? (fun p => p.1 == msgKey q)).map (·.2)
 
+/-! ## Cache lives: dump and load
+
+`writeDump` walks the store and records every live entry with a key; `readDump`
+stores every recorded entry, last write wins, into the instance it runs on (a
+fresh one at start-up with `dump_file`, any instance with `POST /load_dump`).
+What the two do with the key is read from the source (facts `c04DumpWritesKey`,
+`c04DumpLoadKeepsKey`): the entry's own key is written and the dumped key bytes
+are the key it is stored under, untransformed; for any other reading no load key
+function is known. -/
+def dumpLoadKey (writesKey loadKeepsKey : Option Bool) : Option (Bytes → Bytes) :=
+  if writesKey = some true ∧ loadKeepsKey = some true then some (fun k => k) else none
+
+/-- `readDump` on a store `s` with the dumped entries `d` (in the order of the dump). -/
+def loadDump {α} (loadKey : Bytes → Bytes) (s : Store α) (d : List (Bytes × Entry α)) : Store α :=
+  d.foldl (fun s p => (loadKey p.1, p.2) :: s.filter (fun x => x.1 != loadKey p.1)) s
+
+/-- The stores a cache plugin can be in over any number of lives: it starts empty,
+stores and flushes, and may at any time load a dump `d` of some reachable store `s₀`
+(itself earlier, another instance). A dump holds entries of `s₀` in any order; it may
+leave entries out (expired ones are skipped). -/
+inductive Reach {α : Type} (loadKey : Bytes → Bytes) : Store α → Prop
+  | fresh : Reach loadKey []
+  | op (s : Store α) (o : Op α) : Reach loadKey s → Reach loadKey (step s o)
+  | load (s s₀ : Store α) (d : List (Bytes × Entry α)) : Reach loadKey s → Reach loadKey s₀ →
+      (∀ p ∈ d, p ∈ s₀) → Reach loadKey (loadDump loadKey s d)
+
+/-- A load-time "upgrade" of keys that look like an older layout
+(`bits, 0, type, len, name`, no class): such a key gets class IN spliced in. Used
+only as a counterexample (`Props.C04.guessed_layout_is_wrong`). -/
+def upgradeOld : Bytes → Bytes
+  | f :: 0 :: t :: l :: rest => if l.toNat = rest.length then f :: 0 :: t :: 0 :: 1 :: l :: rest else f :: 0 :: t :: l :: rest
+  | k => k
+
 /-! ## Plugin chains: several cache plugins, the question may change between them
 
 What travels along a chain, as far as C04 is concerned: the question the next
